@@ -30,6 +30,8 @@ class Sock:
         self.host = None            # identity the environment used on this connection
         self.cer_sent = False
         self.cea_sent = False
+        self.cer_variant = None
+        self.cea_variant = None
         self.env_closed = False     # eof/reset injected
         self.out = []               # frames the node wrote (refcodec Frame)
         self.nreq = 0               # requests the environment sent on it
@@ -99,8 +101,8 @@ class Scenario:
             self.socks.append(Sock(fs, "accepted", len(self.socks)))
         elif kind == "m" or kind == "b":
             s = self.sock(ev[1])
-            if s is None:
-                return False
+            if s is None or (s.fs.connecting and (not s.fs.conn_done or s.fs.so_error)):
+                return False        # no data can arrive on a socket whose connect has not completed
             data = b""
             for name in ev[2:]:
                 d = self.message(s, name)
@@ -125,6 +127,7 @@ class Scenario:
             if s is None or not s.fs.connecting or s.fs.conn_done:
                 return False
             s.fs.resolve_connect(ev[2])
+            nw.world.obs("env_resolve", s.fs.sid, ev[2])
             nw.run()
         elif kind in ("ans", "ans2"):
             j = ev[1]
@@ -217,6 +220,7 @@ class Scenario:
             s.cer_sent = True
             hbh, e2e = 0x100 + s.idx, 0x200 + s.idx
             var = name[4:]
+            s.cer_variant = var
             if var.startswith("p"):             # cer_p<i>: known peer i with the node's applications
                 i = int(var[1:])
                 if i >= len(cfg["peers"]):
@@ -243,6 +247,7 @@ class Scenario:
             s.cea_sent = True
             c = cers[0]
             var = name[4:]
+            s.cea_variant = var
             kw = dict(host=host, acct=napps_acct, auth=napps_auth, hbh=c.h.hbh, e2e=c.h.e2e)
             if var == "ok":
                 return env.cea(2001, **kw)
